@@ -49,6 +49,7 @@ type fWorld struct {
 	domains   []string // pool domains mentioned anywhere in the lists
 	docSites  []string // hosts covered by a document-level exception with cosmetic modifiers
 	must      []string // hostnames every query pool asks about (the names of the hosts clusters)
+	extra     []*fQuery // queries every query pool contains (aimed at the clusters added by fAddDomainCluster)
 }
 
 var fHostIPs = []string{"0.0.0.0", "127.0.0.1", "::", "::1", "10.1.2.3", "2001:db8::5"}
@@ -529,6 +530,7 @@ func fGenQueryPool(r *rng, w *fWorld, n int) (qs []*fQuery) {
 	for _, h := range w.must {
 		qs = append(qs, &fQuery{kind: "dns", dns: &urlfilter.DNSRequest{Hostname: h}})
 	}
+	qs = append(qs, w.extra...)
 	n += len(qs)
 	for len(qs) < n {
 		switch k := r.n(10); {
